@@ -68,7 +68,16 @@ static Result run_case (const Case &c)
 
 	MemFile a, b, a2 ; std::string e ;
 	pinned_time () = (long) c.geti ("t1") ;
+	// "repeating the run later or in another process": the same call sequence once more on a heap with another history (blocks of
+	// many sizes filled with a different byte and freed). Under ASan's defaults fresh blocks are pattern-filled and freed ones quarantined,
+	// so this only bites in the second stage, which runs with an allocator that hands freed blocks straight back, unfilled.
+	auto dirty_heap = [] (uint8_t pat) { std::vector<void *> v ; for (size_t sz = 16 ; sz <= 65536 ; sz = sz < 512 ? sz + 16 : sz + sz / 16)	/* every allocator size class up to 64 KiB */ { void *p = malloc (sz) ; if (p) { memset (p, pat, sz) ; v.push_back (p) ; } } for (void *p : v) free (p) ; } ;
+	MemFile a3 ;
+	static const bool reuse_allocator = getenv ("ASAN_OPTIONS") && strstr (getenv ("ASAN_OPTIONS"), "max_malloc_fill_size=0") ;
+	if (reuse_allocator) dirty_heap (0x11) ;
 	e = write_partitioned (a, s, t, src.p, N, P, false, nullptr) ; if (!e.empty ()) return fail ("write_failed", "P: " + e) ;
+	if (reuse_allocator) { dirty_heap (0xEE) ; e = write_partitioned (a3, s, t, src.p, N, P, false, nullptr) ; if (!e.empty ()) return fail ("write_failed", "P again: " + e) ; r.classes.push_back ("heap_history:varied") ; }
+	if (reuse_allocator && a.data != a3.data) return fail ("bytes_depend_on_heap_history", "the same calls, the same clock, another heap history: first difference at byte " + std::to_string (first_diff (a.data, a3.data)) + " of " + std::to_string (a.data.size ())) ;
 	e = write_partitioned (b, s, t, src.p, N, Q, false, nullptr) ; if (!e.empty ()) return fail ("write_failed", "Q: " + e) ;
 	pinned_time () = (long) c.geti ("t2") ;
 	e = write_partitioned (a2, s, t, src.p, N, P, false, nullptr) ; if (!e.empty ()) return fail ("write_failed", "P@t2: " + e) ;
